@@ -39,7 +39,7 @@ CHECKS = {
             "phase), not over schedules.", "DESIGN.md 3/C04",
             TECH + "; byte-exact cut + SIGKILL enumeration, independent wire parser"),
     "C05": gw("Seeded search over topologies (popen / via / socket), worker programs (idle, blocked, busy, sleeping, "
-              "interrupt-swallowing (also ignoring SIGTERM), extra threads), injected SIGSTOP/SIGKILL/SIGINT, members exited "
+              "interrupt-swallowing (also ignoring SIGTERM), extra threads, interpreters that outlive their closed connection), injected SIGSTOP/SIGKILL/SIGINT, members exited "
               "beforehand, a blocked sender, timeouts {0.1,1,5} and failing makegateway calls (id taken or raced, unknown via, "
               "missing interpreter, unreachable host, death in bootstrap, failing chdir/nice step); oracle: terminate returns "
               "without raising within 2*T+1 (local members) resp. 2*T*(N+P)+1 simulated seconds, group empty, every local "
@@ -76,13 +76,13 @@ CHECKS = {
         TECH + "; pool-only harness, history oracle",
     ),
     "C10": gw("Seeded schedule search over setcallback placements (before/between/after in-flight items and the peer's close), "
-              "endings by end-of-body / raise / sub-channel close / SIGKILL (also of a proxied sub), dropped or locally closed "
-              "receivers, endmarker values incl. None and falsy ones, receive() probes and MultiChannel receive queues; "
+              "endings by end-of-body / raise / sub-channel close or drop / SIGKILL (also of a proxied sub), dropped or locally closed "
+              "receivers, a local close racing the peer's end, callbacks closing their channel, a dropped callback channel whose id comes back as a new object, endmarker values incl. None and falsy ones, receive() probes and MultiChannel receive queues; "
               "callback sequence compared with the wire order from the hand-over point, endmarker exactly once.",
               "DESIGN.md 3/C10", "history oracle vs. ground-truth wire log; kill faults"),
     "C11": gw("Seeded search over the moment and manner of losing the initiator (SIGKILL at a sync point, byte-exact cut inside "
               "a frame, normal exit, write side closed only, death of a via master) x worker programs (incl. a callback left on a "
-              "dropped channel and refused remote_execs on a busy main_thread_only worker) x backends x topologies; "
+              "dropped channel - also one that raises on the endmarker -, earlier bodies run to completion and refused remote_execs on a busy main_thread_only worker) x backends x topologies; "
               "the real 5 s / SIGINT / 10 s / os._exit ladder runs in simulated time; oracle: every worker has exited within "
               "16 simulated seconds per hop.",
               "DESIGN.md 3/C11", "crash injection, bounded-liveness oracle in simulated time"),
@@ -101,9 +101,9 @@ CHECKS = {
               "sequential and overlapping submission on main_thread_only workers: main-thread identity, one at a time, "
               "submission order, documented deadlock error for overlaps only.",
               "DESIGN.md 3/C14", "scripted-expectation oracle + body-span checks"),
-    "C15": gw("C16's deterministic channel scripts run on an import-bootstrapped worker (reference) and on seven source-only "
+    "C15": gw("C16's deterministic channel scripts run on an import-bootstrapped worker (reference) and on nine source-only "
               "bootstrap paths (python=, ssh, ssh+config, vagrant_ssh, vagrant_ssh+config, via a bare master, socket server on a "
-              "bare master; one run in seven with EXECNET_DEBUG=1) whose workers "
+              "bare master, both also with a main_thread_only master; one run in seven with EXECNET_DEBUG=1) whose workers "
               "execute the shipped bytes in a fresh __main__ under an import guard that refuses execnet and non-stdlib modules; "
               "transcripts identical, bootstrap kind and argv shape of every child checked.",
               "DESIGN.md 3/C15", "differential transcripts bare vs import bootstrap; import guard on executed paths",
@@ -117,7 +117,7 @@ CHECKS = {
               "Group.terminate of a stopped sub must reach the proxied process.",
               "DESIGN.md 3/C16", "differential transcripts across transports + scripted reference model"),
     "C17": gw("Real RSync + real rsync_remote over 1-3 simulated workers on a REAL scratch file system: generated trees, prior "
-              "target states, delete flag, cwd, modify-then-resync steps, seeded listdir order and schedules of the multiplexed "
+              "target states, delete flag, cwd, targets named by relative paths (per-process working directories), names with leading dots, modify-then-resync steps, seeded listdir order and schedules of the multiplexed "
               "callbacks; oracle: content/mode/mtime/kind equality, lexical symlink expectation, delete/no-delete rules, "
               "idempotent re-sync (no content transferred, nothing changed).",
               "DESIGN.md 3/C17", "schedule search over target interleavings; tree-equality oracle on a real scratch FS",
@@ -182,7 +182,7 @@ def main():
         "hooks": {
             "guard": "EXECNET_VERIF_SIM",
             "enable": "no hook is needed: the simulator plugs into execnet's own ExecModel seam and rebinds module globals "
-                      "from outside (multi.Lock, rsync.Queue, os.kill/_exit/getpid); checks import execnet from /repo/src",
+                      "from outside (multi.Lock, rsync.Queue, os.kill/_exit/getpid/chdir/listdir, _thread.interrupt_main); checks import execnet from /repo/src",
             "baseline_off_cmd": "cd /repo && /venv/bin/python -m pytest -ra -q -p no:cacheprovider --timeout=900 "
                                 "--continue-on-collection-errors",
             "source_commits": [],
